@@ -27,3 +27,10 @@ PROP = {
          "finding": "C16-discarded-truncated-response-leaks-spool-file", "facets": [], "checks": (1, 1), "shards": (1, 1), "verbose": True},
     ],
 }
+
+# "MarkAsFinished deletes the state entry": after every simulated crawl - including seeds that are refused, excluded or
+# fail for good - the reactor tracks nothing and holds no token (simulated-network pipeline harness, shared with C01)
+import os, importlib.util
+_spec = importlib.util.spec_from_file_location("c01", os.path.join(os.path.dirname(os.path.abspath(__file__)), "C01.py"))
+_m = importlib.util.module_from_spec(_spec); _spec.loader.exec_module(_m)
+PROP["units"].append(dict(_m.SIM_UNIT))
